@@ -11,7 +11,9 @@ import (
 	"verifextract/ex"
 )
 
-func main() { ex.Main([]string{"TermKeys.lean"}, gen) }
+func main() {
+	ex.Main([]string{"TermKeys.lean", "TermInputModes.lean"}, func(c *ex.Ctx) { gen(c); genModes(c) })
+}
 
 func bytesLit(s string) string {
 	var parts []string
@@ -159,6 +161,15 @@ func gen(c *ex.Ctx) {
 	sb.WriteString("/-- encodeXterm, Ctrl + non-lowercase key: explicit cases (key ↦ runes written); default is `key - 0x40`. -/\ndef ctrlCases : List (Int × List Int) := [" + strings.Join(rows, ", ") + "]\n\n")
 	sb.WriteString("end VaxisModel.Gen.TermKeys\n")
 	c.Write("TermKeys.lean", sb.String())
+}
+
+func strLit(e ast.Expr) (string, bool) {
+	bl, ok := e.(*ast.BasicLit)
+	if !ok {
+		return "", false
+	}
+	s, err := strconv.Unquote(bl.Value)
+	return s, err == nil
 }
 
 func sep(i, n int) string {
